@@ -13,6 +13,7 @@ import (
 
 	lime "github.com/takenet/lime-go"
 
+	"reflect"
 	"verif/harness/internal/core"
 	"verif/harness/internal/faultconn"
 	"verif/harness/internal/hs"
@@ -52,6 +53,10 @@ type c04cell struct {
 
 func (c04) Plan(tier string, seed uint64) []core.Case {
 	var cases []core.Case
+	// a session that is silent for longer than the TCP transport's I/O poll interval (5 s) and then used again
+	for _, t := range []string{rig.TCP, rig.TLS, rig.WS} {
+		cases = append(cases, core.Case{ID: "C04/idle/" + t, Engine: "idle", Seed: seed, P: map[string]interface{}{"transport": t}, TimeoutS: 120})
+	}
 	transports := []string{rig.InProc, rig.TCP, rig.TLS, rig.WS, rig.WSS, "chunk"}
 	add := func(c c04cell, race bool, s uint64) {
 		id := fmt.Sprintf("C04/%s/cb%d/ib%d/s%d/d%d/%03d", c.Transport, c.ChanBuf, c.InprocBuf, c.Senders, c.DelayUS, len(cases))
@@ -227,9 +232,131 @@ func c04send(ctx context.Context, ch c04senderIface, e interface{}) error {
 	return fmt.Errorf("unknown")
 }
 
+// idle: three envelopes each way, 5.6 s of silence (more than one read poll of the TCP transport), three more each way.
+func (p c04) idle(r *core.Result, c core.Case) {
+	flavour := c.Str("transport", rig.TCP)
+	var mu sync.Mutex
+	var srvCh *lime.ServerChannel
+	var atServer []string
+	est := make(chan struct{}, 1)
+	mux := &lime.EnvelopeMux{}
+	mux.MessageHandlerFunc(nil, func(ctx context.Context, m *lime.Message, sd lime.Sender) error {
+		mu.Lock()
+		atServer = append(atServer, m.ID)
+		mu.Unlock()
+		return nil
+	})
+	cfg := rig.DefaultServerConfig()
+	cfg.ChannelBufferSize = 4
+	cfg.Established = func(id string, ch *lime.ServerChannel) {
+		mu.Lock()
+		srvCh = ch
+		mu.Unlock()
+		select {
+		case est <- struct{}{}:
+		default:
+		}
+	}
+	sr, err := rig.StartServer(cfg, mux, []string{flavour}, 0)
+	if err != nil {
+		r.Verdict = core.Inconclusive
+		r.Note = err.Error()
+		return
+	}
+	defer sr.Close(20 * time.Second)
+	ctx, cancel := context.WithTimeout(context.Background(), 60*time.Second)
+	defer cancel()
+	cc, _, err := sr.EstablishClient(ctx, flavour, 4, 4, lime.Identity{Name: "idle", Domain: "verif.local"}, "i")
+	if err != nil {
+		r.Verdict = core.Inconclusive
+		r.Note = err.Error()
+		return
+	}
+	defer cc.Close()
+	select {
+	case <-est:
+	case <-time.After(5 * time.Second):
+		r.Verdict = core.Inconclusive
+		r.Note = "no Established callback"
+		return
+	}
+	mu.Lock()
+	sc := srvCh
+	mu.Unlock()
+	var atClient []string
+	var cmu sync.Mutex
+	go func() {
+		for m := range cc.MsgChan() {
+			cmu.Lock()
+			atClient = append(atClient, m.ID)
+			cmu.Unlock()
+		}
+	}()
+	var wantS, wantC []string
+	exchange := func(phase string) {
+		for i := 0; i < 3; i++ {
+			for _, dir := range []string{"c2s", "s2c"} {
+				m := &lime.Message{}
+				m.ID = fmt.Sprintf("%s-%s-%d", phase, dir, i)
+				m.SetContent(lime.TextDocument("x"))
+				octx, oc := context.WithTimeout(ctx, 10*time.Second)
+				var err error
+				if dir == "c2s" {
+					err = cc.SendMessage(octx, m)
+				} else {
+					err = sc.SendMessage(octx, m)
+				}
+				oc()
+				if err != nil {
+					r.Violate("C04/idle/send-failed/"+flavour, fmt.Sprintf("%s, %s the silence: SendMessage %s failed although the session is established: %v", flavour, phase, m.ID, err))
+					continue
+				}
+				if dir == "c2s" {
+					wantS = append(wantS, m.ID)
+				} else {
+					wantC = append(wantC, m.ID)
+				}
+			}
+		}
+	}
+	exchange("before")
+	time.Sleep(5600 * time.Millisecond)
+	exchange("after")
+	ok := false
+	for i := 0; i < 1500 && !ok; i++ {
+		mu.Lock()
+		cmu.Lock()
+		ok = len(atServer) >= len(wantS) && len(atClient) >= len(wantC)
+		cmu.Unlock()
+		mu.Unlock()
+		if !ok {
+			time.Sleep(10 * time.Millisecond)
+		}
+	}
+	mu.Lock()
+	cmu.Lock()
+	r.Evals++
+	r.Count("idle_sessions", 1)
+	r.Count("sent", len(wantS)+len(wantC))
+	r.Count("delivered", len(atServer)+len(atClient))
+	if !reflect.DeepEqual(atServer, wantS) {
+		r.Violate("C04/idle/lost/"+flavour+"/to-server", fmt.Sprintf("%s: after 5.6 s of silence on an established session the client sent %v (every send returned nil); the server's handler saw %v", flavour, wantS, atServer))
+	}
+	if !reflect.DeepEqual(atClient, wantC) {
+		r.Violate("C04/idle/lost/"+flavour+"/to-client", fmt.Sprintf("%s: after 5.6 s of silence on an established session the server sent %v (every send returned nil); the client's stream yielded %v", flavour, wantC, atClient))
+	}
+	cmu.Unlock()
+	mu.Unlock()
+	r.Fingerprints = append(r.Fingerprints, "idle|"+flavour)
+}
+
 func (p c04) Run(c core.Case) core.Result {
 	var r core.Result
 	r.Verdict = core.Held
+	if c.Engine == "idle" {
+		p.idle(&r, c)
+		return r
+	}
 	var cell c04cell
 	remarshal(c.P["cell"], &cell)
 	rng := core.NewRng(c.Seed)
